@@ -297,15 +297,15 @@ class ArMember(object):
     # file interface
 
     # XXX this is not a sequence like file objects
-    def read(self, size=0):
-        # type: (int) -> bytes
+    def read(self, size=-1):
+        # type: (Optional[int]) -> bytes
         if self.__fp is None:
             if self.__fname is None:
                 raise ValueError("Cannot have both fp and fname undefined")
             self.__fp = open(self.__fname, "rb")  # pylint: disable = consider-using-with
         self.__fp.seek(self.__cur)
 
-        if 0 < size <= self.__end - self.__cur:   # there's room
+        if size is not None and 0 <= size <= self.__end - self.__cur:   # there's room
             buf = self.__fp.read(size)
             self.__cur = self.__fp.tell()
             return buf
